@@ -51,15 +51,24 @@ def build(g):
     if 'user' in g['tags']:
         from textx import metamodel_from_str
 
+        # both user classes are falsy (an empty-container-like __len__ / an
+        # explicit __bool__): textX must never use the truth value of a model
+        # object to decide about containment links
         class C:
             def __init__(self, **kw):
                 for k, v in kw.items():
                     setattr(self, k, v)
 
+            def __bool__(self):
+                return False
+
         class P:
             def __init__(self, **kw):
                 for k, v in kw.items():
                     setattr(self, k, v)
+
+            def __len__(self):
+                return 0
         mm1 = metamodel_from_str(gram.render_grammar(V1), classes=[C, P])
         mm1.model_from_str('p a q 1; c b q 2;')          # the application used version 1 before
         return metamodel_from_str(gram.render_grammar(V2), classes=[C, P])
